@@ -205,6 +205,38 @@ def handle (op : String) (a : Json) : Except String Json := do
     let hk (v : PyVal) : Bool := ((pyCls v).bind hashFields).isSome
     return Json.mkObj [("eq", boolJ (PyVal.beq x y)), ("canon_eq", boolJ (Val.beq x.canon y.canon)),
                        ("has_key", boolJ (hk x && hk y))]
+  | "extras_eq" =>
+    -- two terms as constructed: the canonical descriptor the walk produced and the extras in insertion order
+    let rd (j : Json) : Except String (RawTerm × Encoding.Term) := do
+      let t ← getTerm (← fld j "term")
+      let items ← (← fldArr j "items").mapM fun p => do
+        match ← getArr p with
+        | [k, v] => return (← k.getStr?, ← v.getStr?)
+        | _ => .error "items: expected pair"
+      return (({ core := t, extra := items } : RawTerm), t)
+    let (x, tx) ← rd (← fld a "a")
+    let (y, ty) ← rd (← fld a "b")
+    return Json.mkObj [("py_eq", boolJ (x.pyEq y)), ("canon_eq", boolJ (decide (x.canon = y.canon))),
+                       ("sent_eq", boolJ (decide (tx = ty))),
+                       ("canon_is_sent", boolJ (decide (x.canon = tx) && decide (y.canon = ty))),
+                       ("wf", boolJ (decide ((x.extra.map (·.1)).Nodup) && decide ((y.extra.map (·.1)).Nodup)))]
+  | "bind_call" =>
+    -- Python's binding of a call with `npos` positional arguments (ids 0..npos-1) and the keywords `kw`
+    -- (ids npos..) to the parameter names extracted from the code; `sig` names the documented table
+    let params ← (← fldArr a "params").mapM (·.getStr?)
+    let npos ← fldNat a "npos"
+    let kw ← (← fldArr a "kw").mapM (·.getStr?)
+    let doc := match fldOpt a "sig" with
+      | some (.str "find_tag") => some findTagSig
+      | some (.str "find_feature") => some findFeatureSig
+      | some (.str "encoding") => some encodingSig
+      | _ => none
+    let b := bindCall params (List.range npos) (kw.zipIdx.map fun (k, j) => (k, npos + j))
+    return Json.mkObj [
+      ("documented", boolJ (doc == some params)),
+      ("binding", match b with
+        | none => Json.null
+        | some xs => arrJ (xs.map fun (k, i) => arrJ [Json.str k, natJ i]))]
   | _ => .error s!"C19: unknown op {op}"
 
 end SE.Ops.C19
